@@ -114,9 +114,11 @@ class IkeSaController:
         logging.debug('Received acquire for {}'.format(peer_addr))
 
         # look for an active IKE_SA with the peer
+        new_ike_sa = False
         try:
             ike_sa = self._get_ike_sa_by_addrs(my_addr, peer_addr)
         except StopIteration:
+            new_ike_sa = True
             my_addr = xfrm_acquire.saddr.to_ipaddr(family)
             ike_conf = self.configuration.get_ike_configuration(my_addr, peer_addr)
             # create new IKE_SA (for now)
@@ -130,6 +132,9 @@ class IkeSaController:
         small_tsr = TrafficSelector.from_network(ip_network(xfrm_acquire.sel.daddr.to_ipaddr(sel_family)),
                                                  xfrm_acquire.sel.dport, xfrm_acquire.sel.proto)
         request = ike_sa.process_acquire(small_tsi, small_tsr, xfrm_acquire.policy.index >> 3)
+        # an IKE_SA created for an ACQUIRE that then started nothing (unknown policy index) is of no use
+        if new_ike_sa and ike_sa.state == IkeSa.State.INITIAL:
+            self.ike_sas.remove(ike_sa)
 
         # look for ipsec configuration
         return request, ike_sa.my_addr, ike_sa.peer_addr
